@@ -29,7 +29,7 @@ import (
 // through the REAL decoders and the REAL Validator.
 //
 // Trace of one case:
-//   cfg sinks=<bin|json|multi> goroutines=<G> calls=<N> restart=<n|-1>
+//   cfg sinks=<bin|json|multi> goroutines=<G> calls=<N> restart=<n|-1> zone=<seconds east of UTC the process runs in>
 //   c <reqid> <method> <goroutine> <ok|err> <error hex> seen=<entries in the sink while the inner call ran> <args>
 //   file <ser> verdict=<ok|i:reason> entries=<n>
 //   same <ok|i:fields>                   (multi: both files hold the same entries)
@@ -170,6 +170,8 @@ func runC26(args []string) {
 		}
 		caseNo := k
 		out.Case(k, seed)
+		// the process zone rotates with the case: the middleware's own time.Now() carries it
+		zoneOff := verifx.AuditSetZone(k + 1)
 		k++
 		func() {
 			defer func() {
@@ -196,7 +198,7 @@ func runC26(args []string) {
 				return nil
 			}
 			verifx.Check(s.open())
-			out.Line("cfg sinks=%s goroutines=%d calls=%d restart=%d", p.sinks, p.goroutines, p.calls, p.restartAt)
+			out.Line("cfg sinks=%s goroutines=%d calls=%d restart=%d zone=%d", p.sinks, p.goroutines, p.calls, p.restartAt, zoneOff)
 
 			var all []*c26CallRec
 			runBatch := func(from, to int) {
